@@ -574,7 +574,8 @@ theorem bundle_refines_partial_unrequired {N : NumOps} (ρ : ExtOracle N) (hρ :
     exact execB_append_next _ ρ _ _ stmts last _ _ _ _ hexR
   simp only [runProgram, runChunk]
   rw [hB, hR]
-  rcases hobs with ⟨hu, _⟩ | h
+  rcases hobs with ⟨hu, _⟩ | ⟨hu, _⟩ | h
+  · cases hu
   · cases hu
   · exact h.symm
 
